@@ -85,50 +85,29 @@ theorem parseable_keeps_refreshing (s : State) (loc : Loc) (e : Entry) (nc : Opt
   refine ⟨d, hsv, ?_⟩
   rcases hm with hm | hm <;> rw [hm] <;> rfl
 
-/-- **Under `verify` a CRL that fails verification is never in force — neither now nor after a restart**, for histories
-that may change the signature mode across restarts (`Op.reconfigure`): whatever is in force while the process runs under
-`verify` was verified against the candidates presented at some intake — possibly in an earlier run under another mode, by
-a load, a refresh or a signature-certificate retry that presented the signer.
-
-Hypothesis `ProvisionsSafe`: every provisioning step of the history happens under fetch mode `actively` (the default) or
-while the mode is not `verify`. Without it the statement is FALSE of the model (and of the code it follows), see
-`background_provision_counterexample` below. -/
-theorem verify_in_force_was_verified (cfg : Cfg) (ops : List Op) (hsafe : ProvisionsSafe cfg ops)
+/-- **Under `verify` a CRL that fails verification is never in force — neither now nor after a restart**, for ALL histories,
+including those that change the signature mode across restarts (`Op.reconfigure`): whatever is in force while the process
+runs under `verify` was verified against the candidates presented at some intake — possibly in an earlier run under another
+mode, by a load, a refresh or a signature-certificate retry that presented the signer.
+(Until repair 1160255 this needed a hypothesis on provisioning steps; see `former_counterexample_now_harmless` below.) -/
+theorem verify_in_force_was_verified (cfg : Cfg) (ops : List Op)
     (hm : (run cfg ops).cfg.sigMode = .verify) (loc : Loc) (d : DocA)
     (hf : inForce (run cfg ops) loc d) :
     ∃ a ∈ (run cfg ops).log, a.loc = loc ∧ a.doc = d ∧ verifies d a.cands = true := by
   obtain ⟨e, hmem, hl, _, hdoc⟩ := hf
-  have he := (inv_run_safe cfg ops hsafe).1 (loc, e) hmem
-  exact he.store.verified rfl d hdoc (he.verifySigner hm hl)
+  have he := (inv_run cfg ops).1 (loc, e) hmem
+  exact he.store.verified d hdoc (he.verifySigner hm hl)
 
-/-- The two simple sufficient conditions: fetch mode `actively` (the default), or a history without provisioning steps. -/
-theorem verify_in_force_was_verified_actively (cfg : Cfg) (ops : List Op) (hfetch : cfg.fetch = .actively)
-    (hm : (run cfg ops).cfg.sigMode = .verify) (loc : Loc) (d : DocA) (hf : inForce (run cfg ops) loc d) :
-    ∃ a ∈ (run cfg ops).log, a.loc = loc ∧ a.doc = d ∧ verifies d a.cands = true :=
-  verify_in_force_was_verified cfg ops (provisionsSafe_of_actively cfg ops hfetch) hm loc d hf
-
-theorem verify_in_force_was_verified_no_provision (cfg : Cfg) (ops : List Op) (hnp : ∀ op ∈ ops, op.isProvision = false)
-    (hm : (run cfg ops).cfg.sigMode = .verify) (loc : Loc) (d : DocA) (hf : inForce (run cfg ops) loc d) :
-    ∃ a ∈ (run cfg ops).log, a.loc = loc ∧ a.doc = d ∧ verifies d a.cands = true :=
-  verify_in_force_was_verified cfg ops (provisionsSafe_of_no_provision cfg ops hnp) hm loc d hf
-
-/-- The statement of the previous model (mode never changes: histories without `reconfigure`, initial mode `verify`)
-still holds for all such histories, with no further hypothesis: under a constant `verify` nothing unverified is ever stored. -/
+/-- The statement of the previous model (mode never changes: histories without `reconfigure`, initial mode `verify`) is the
+special case. -/
 theorem verify_in_force_was_verified_constant_mode (cfg : Cfg) (ops : List Op) (hm : cfg.sigMode = .verify)
     (hnr : ∀ op ∈ ops, ∀ m', op ≠ .reconfigure m') (loc : Loc) (d : DocA) (hf : inForce (run cfg ops) loc d) :
-    ∃ a ∈ (run cfg ops).log, a.loc = loc ∧ a.doc = d ∧ verifies d a.cands = true := by
-  obtain ⟨e, hmem, _, _, hdoc⟩ := hf
-  obtain ⟨a, ha, h1, h2, h3⟩ := ((inv_run cfg ops).1 (loc, e) hmem).store.accepted d hdoc
-  obtain ⟨pre, suf, heq, hmode⟩ := log_mode_at_intake cfg ops a ha
-  have hpre : (run cfg pre).cfg.sigMode = .verify := by
-    rw [cfg_run_of_no_reconfigure cfg pre (fun op hop => hnr op (by rw [heq]; exact List.mem_append_left _ hop))]
-    exact hm
-  rw [← hmode, hpre] at h3
-  exact ⟨a, ha, h1, h2, h3⟩
+    ∃ a ∈ (run cfg ops).log, a.loc = loc ∧ a.doc = d ∧ verifies d a.cands = true :=
+  verify_in_force_was_verified cfg ops (by rw [cfg_run_of_no_reconfigure cfg ops hnr]; exact hm) loc d hf
 
-/-- What holds for ALL histories (no hypothesis on provisioning): whatever is in force under `verify` carries a stored
-signer certificate, and that signer verified *some* list of this location against presented candidates (not necessarily
-the list in force — that is the defect of `background_provision_counterexample`). -/
+/-- Whatever is in force under `verify` carries a stored signer certificate, and that signer verified some list of this
+location against presented candidates (after a signature-certificate retry it is the signer of the newer list whose
+refresh had failed verification, not necessarily of the list in force — which was verified by its own signer). -/
 theorem verify_in_force_has_seen_signer (cfg : Cfg) (ops : List Op)
     (hm : (run cfg ops).cfg.sigMode = .verify) (loc : Loc) (d : DocA) (hf : inForce (run cfg ops) loc d) :
     ∃ e sg, (loc, e) ∈ (run cfg ops).entries ∧ e.store.doc = some d ∧ e.store.signer = some sg ∧
@@ -152,13 +131,13 @@ theorem persisted_was_accepted_at_intake (cfg : Cfg) (ops : List Op) (loc : Loc)
     ∃ pre suf cands, ops = pre ++ suf ∧ acceptable (run cfg pre).cfg.sigMode d cands = true :=
   accepted_at_intake cfg ops loc d (persisted_was_accepted cfg ops loc st d hmem hdoc)
 
-/-- A persisted store that carries a signer certificate holds a verified list (safe provisioning). This is what makes
+/-- A persisted store that carries a signer certificate holds a verified list, in every reachable state. This is what makes
 `addNewEmptyEntry`'s test "signer certificate stored" a sound criterion after a restart under `verify`. -/
-theorem persisted_with_signer_was_verified (cfg : Cfg) (ops : List Op) (hsafe : ProvisionsSafe cfg ops)
+theorem persisted_with_signer_was_verified (cfg : Cfg) (ops : List Op)
     (loc : Loc) (st : Store) (d : DocA) (hmem : (loc, st) ∈ (run cfg ops).disk) (hdoc : st.doc = some d)
     (hs : st.signer.isSome = true) :
     ∃ a ∈ (run cfg ops).log, a.loc = loc ∧ a.doc = d ∧ verifies d a.cands = true :=
-  ((inv_run_safe cfg ops hsafe).2 (loc, st) hmem).verified rfl d hdoc hs
+  ((inv_run cfg ops).2 (loc, st) hmem).verified d hdoc hs
 
 /-- The repaired `addNewEmptyEntry`: in any state whose mode is `verify` (e.g. after `reconfigure s .verify`), the entry opened
 for a location whose persisted store has no signer certificate is not loaded. -/
@@ -228,16 +207,22 @@ example : ∃ a ∈ (run { sigMode := .verifyLog } retryThenVerify).log, a.loc =
 example : ¬ inForce (run { sigMode := .verifyLog } [.serve 1 (.doc ⟨7, [10], 9, 1⟩), .handshake ⟨7, 10, some 1⟩ [1], .tick [1],
     .reconfigure .verify, .handshake ⟨7, 10, some 1⟩ [1]]) 1 ⟨7, [10], 9, 1⟩ := by decide
 
-/-! ### FOUND FALSE without `ProvisionsSafe`: provisioning under fetch mode `background` and `verify` -/
+/-! ### The history that refuted the first version of `verify_in_force_was_verified` -/
 
-/-- The history: (1) under `none`, fetch mode `background`, a list signed by the unknown signer 9 is taken in (handshake adds the
-entry, the tick loads it) — on disk, no signer certificate. (2) Restart under `verify`. (3) The origin now serves a newer list
-signed by 5. Provisioning of location 1 with trusted signers [1]: `AddCRL` opens the entry over the persisted list — not loaded
-(repaired `addNewEmptyEntry`), no active load in background mode; `UpdateCRL` refreshes whatever the loaded flag, the new list
-fails verification: failure flag set, `LastUpdateSignature` = the NEW list, the store still holds the OLD unverified list.
-(4) A handshake presents signer 5: the retry (`tryUpdateSignatureCertFromChain`) verifies the NEW list and stores 5's certificate
-with the OLD store. (5) Restart (still `verify`), handshake: the persisted store has a signer certificate, so the old list —
-signed by 9, never verified by anything — is loaded and in force. -/
+/-- The story. The proof of `verify_in_force_was_verified` for histories with `reconfigure` failed at one place: the
+signature-certificate retry of `AddCRL` (`tryUpdateSignatureCertFromChain`) on a *not loaded* entry. From the failed proof
+obligation this history was read off, and it was a genuine counterexample in the model: (1) under `none`, fetch mode
+`background`, a list signed by the unknown signer 9 is taken in (handshake adds the entry, the tick loads it) — on disk, no
+signer certificate. (2) Restart under `verify`. (3) The origin now serves a newer list signed by 5. Provisioning of location 1
+with trusted signers [1]: `AddCRL` opens the entry over the persisted list — not loaded (`addNewEmptyEntry`, repair 45060a8),
+no active load in background mode; `UpdateCRL` refreshes whatever the loaded flag, the new list fails verification: failure
+flag set, `LastUpdateSignature` = the NEW list, the store still holds the OLD unverified list. (4) A handshake presents signer
+5: the retry verified the NEW list and stored 5's certificate with the OLD store. (5) Restart (still `verify`), handshake: the
+persisted store had a signer certificate, so the old list — signed by 9, never verified by anything — was loaded and in
+force, and `revoked` was answered from it. Replayed on the real code it behaved the same; the code was repaired (1160255: the
+retry only runs for loaded entries; regenerated fact `retryOnlyWhenLoaded`, lemma `Crv.Repo.retry_needs_loaded`).
+Now the same history is harmless: step (4) leaves the store without signer certificate, after step (5) the old list is
+not loaded, not in force, nothing is answered from it, and it is still on disk without signer certificate. -/
 def cexCfg : Cfg := { sigMode := .none, fetch := .background }
 def cexOps : List Op :=
   [.serve 1 (.doc ⟨7, [10], 9, 1⟩), .handshake ⟨7, 10, some 1⟩ [1], .tick [1],
@@ -246,23 +231,26 @@ def cexOps : List Op :=
    .handshake ⟨7, 10, some 1⟩ [5],
    .restart, .handshake ⟨7, 10, some 1⟩ [1]]
 
-theorem background_provision_counterexample :
+theorem former_counterexample_now_harmless :
     (run cexCfg cexOps).cfg.sigMode = .verify ∧
-    inForce (run cexCfg cexOps) 1 ⟨7, [10], 9, 1⟩ ∧
-    isRevoked (run cexCfg cexOps) (run cexCfg cexOps).entries ⟨7, 10, some 1⟩ = .revoked ∧
-    ¬ ∃ a ∈ (run cexCfg cexOps).log, a.loc = 1 ∧ a.doc = ⟨7, [10], 9, 1⟩ ∧ verifies ⟨7, [10], 9, 1⟩ a.cands = true := by
+    ¬ inForce (run cexCfg cexOps) 1 ⟨7, [10], 9, 1⟩ ∧
+    presentAndLoaded (run cexCfg cexOps) 1 = false ∧
+    isRevoked (run cexCfg cexOps) (run cexCfg cexOps).entries ⟨7, 10, some 1⟩ = .notRevoked ∧
+    lookup (run cexCfg cexOps).disk 1 = some ⟨some ⟨7, [10], 9, 1⟩, true, none⟩ := by
   decide
 
-/-- Hence the statement without the hypothesis on provisioning does not hold of the model. -/
-theorem verify_in_force_was_verified_needs_safe_provisioning :
-    ¬ ∀ (cfg : Cfg) (ops : List Op), (run cfg ops).cfg.sigMode = .verify → ∀ (loc : Loc) (d : DocA),
-      inForce (run cfg ops) loc d → ∃ a ∈ (run cfg ops).log, a.loc = loc ∧ a.doc = d ∧ verifies d a.cands = true := by
-  intro h
-  obtain ⟨h1, h2, _, h4⟩ := background_provision_counterexample
-  exact h4 (h cexCfg cexOps h1 1 _ h2)
-
--- the counterexample history is indeed not `ProvisionsSafe`; the same history under fetch mode `actively` is harmless
-example : ¬ inForce (run { cexCfg with fetch := .actively } cexOps) 1 ⟨7, [10], 9, 1⟩ := by decide
+-- after step (4): the failure flag is still set, the retry did not run, no signer certificate was stored
+example : lookup (run cexCfg (cexOps.take 7)).entries 1 =
+    some { store := ⟨some ⟨7, [10], 9, 1⟩, true, none⟩, loaded := false, sigFailed := true,
+           lastDoc := some ⟨7, [11], 5, 2⟩, chains := [1] } := by decide
+-- with strict CDP checking the certificate naming this distribution point is denied at the end
+example : isRevoked (run { cexCfg with strict := true } cexOps) (run { cexCfg with strict := true } cexOps).entries
+    ⟨7, 10, some 1⟩ = .error := by decide
+-- the retry still works where it is meant to: a LOADED entry whose refresh failed verification (list 2 signed by 5, candidates [1]),
+-- then a handshake presenting 5 stores 5's certificate; list 1 (verified at its intake) stays in force
+example : lookup (run { sigMode := .verify } [.serve 1 (.doc ⟨7, [10], 1, 1⟩), .handshake ⟨7, 10, some 1⟩ [1],
+    .serve 1 (.doc ⟨7, [11], 5, 2⟩), .tick [1], .handshake ⟨7, 10, some 1⟩ [5]]).disk 1 =
+    some ⟨some ⟨7, [10], 1, 1⟩, true, some 5⟩ := by decide
 
 /-- The hand-written `Repo` model this property rests on was transcribed from exactly these sources: the fingerprints are
 recomputed from /repo on every run (tools/extract/skeleton.go), so any change to one of the functions breaks this obligation. -/
